@@ -66,9 +66,11 @@ CLAIMED = {
    text="Coq theorems (C12.v) for every status write of every reconcile (all API states, caches, oracles): written against the cached resourceVersion "
         "(a stale writer gets Conflict and changes nothing), observedGeneration = reconciled generation, updateRevision/collisionCount as resolved, "
         "currentRevision unchanged unless strategy=RollingUpdate and this reconcile's counters say updated=replicas=ready, then = updateRevision. "
-        "PARTIAL: the counter bounds 0<=ready,current,updated<=replicas and the census are not proved in Coq; they are decided by the monitor on "
-        "every status write of the real controller and by the projected correspondence (status payloads).",
-   note="As C03. Partial: counter bounds/census are monitor + correspondence, named C12_counters_partial in C12.v.",
+        "Counter bounds (CounterProofs.v, accounting argument pairing every decrement of the three loops with a counted pod): every status write has "
+        "0<=ready,current,updated<=replicas, for all pod lists (several revisions in flight, terminating/failed/condemned/duplicate pods) provided cached pods "
+        "have a phase (API server default). Census: a reconcile whose plan holds no action writes exactly total/ready/current/updated of the claimed pods. "
+        "The same clauses are monitored on every status write of the real controller and compared through the projected correspondence (status payloads).",
+   note="As C03. The bounds theorem carries one environment hypothesis (stored pods have status.phase set), stated in the theorem.",
    technique="Coq proof (status field invariants through the three loops; API precondition) + differential correspondence on status payloads + monitor",
    ref="6 C12"),
  "C15": dict(
